@@ -7,6 +7,7 @@ import (
 	"fmt"
 	"net/url"
 	"path"
+	"sort"
 
 	"github.com/benoitkugler/webrender/logger"
 	mt "github.com/benoitkugler/webrender/matrix"
@@ -316,7 +317,15 @@ func (d *Document) resolveLinks() ([][]Link, [][]backend.Anchor) {
 	pagedAnchors := make([][]backend.Anchor, len(d.Pages))
 	for i, page := range d.Pages {
 		var current []backend.Anchor
-		for anchorName, pos := range page.anchors {
+		// iterate in sorted order: the anchors handed to the backend must not
+		// depend on Go's randomised map iteration
+		names := make([]string, 0, len(page.anchors))
+		for anchorName := range page.anchors {
+			names = append(names, anchorName)
+		}
+		sort.Strings(names)
+		for _, anchorName := range names {
+			pos := page.anchors[anchorName]
 			if !anchors.Has(anchorName) {
 				current = append(current, backend.Anchor{Name: anchorName, X: pos[0], Y: pos[1]})
 				anchors.Add(anchorName)
